@@ -59,6 +59,48 @@ def cmd_replay(args):
     return 2
 
 
+def cmd_export_test(args):
+    """print a plain C++ test (no explorer, no forks) that performs the recorded operations and asserts the monitors"""
+    d = json.load(open(args.file))
+    if d.get("engine") != "engine.cpp":
+        print("// only history replays can be exported")
+        return 2
+    r = d["run"]
+    ops = []
+    for tok in d["history"].split(";"):
+        name, rest = tok.split("(", 1)
+        a = [x for x in rest.rstrip(")").split(",") if x != ""]
+        ops.append("hx::mk(hx::O_%s%s)" % ({"er": "ER1", "err": "ER2"}.get(name, name.upper()), "".join(", " + x for x in a)))
+    print("""// %s
+// %s
+// build: g++ -std=c++17 -O1 -g -fsanitize=address -I%s -I%s -DCFG_LIST=%s -DCFG_ALLOC=%s this_file.cpp && ./a.out
+#include "engine.hpp"
+#include <cassert>
+#include <cstdio>
+int main()
+{
+    using Eng = hx::Engine<hx::L_%s, hx::A_%s>;
+    env::L().junk = %d;
+    env::L().base = %d;
+    Eng e;
+    e.prm.mode = "%s";
+    e.prm.nmax = %d; e.prm.cmax = %d; e.prm.bmax = %d; e.prm.arena1 = %d;
+    const hx::Op ops[] = {%s};
+    for (const auto& o : ops)
+    {
+        auto pre = e.snapshot(o.k == hx::O_RS);
+        e.apply(o);
+        e.transition_monitors(pre, o);
+        e.inspect();
+        for (auto& v : env::viols()) std::printf("after %%s: [%%s] %%s|%%s: %%s\\n", hx::op_str(o).c_str(), v.props.c_str(), v.monitor.c_str(), v.discr.c_str(), v.msg.c_str());
+    }
+    assert(env::viols().empty() && "the monitors must stay silent");
+    return 0;
+}""" % (d["signature"], d.get("message", ""), C.SRC, C.HARNESS, r["list"], r["alloc"], r["list"], r["alloc"], r["junk"], r["base"],
+         r["mode"], r["nmax"], r["cmax"], r["bmax"], r["arena1"], ", ".join(ops)))
+    return 0
+
+
 def cmd_setup(args):
     """create the work directories and warm the build cache for the current tree (quick tier binaries)"""
     import concurrent.futures as cf
@@ -105,6 +147,9 @@ def main():
     r.set_defaults(fn=cmd_replay)
     s = sub.add_parser("setup")
     s.set_defaults(fn=cmd_setup)
+    x = sub.add_parser("export-test")
+    x.add_argument("file")
+    x.set_defaults(fn=cmd_export_test)
     args = ap.parse_args()
     sys.exit(args.fn(args))
 
